@@ -73,6 +73,7 @@ inductive Tr : Sh → Th → Sh → Th → Prop
   | ctlSd1 {s s' : Sh} {f : Flags} {rest : List EnvOp} : sd1 s f = some s' →
       Tr s (.ctl .ready (.shutdown f :: rest)) s' (.ctl (.sd2 f.dontWait) rest)
   | ctlSdAgain {s : Sh} {f : Flags} {rest : List EnvOp} {r : Res} {pc : CPc} : sd1 s f = none →
+      (pc = .ready ∨ pc = .sdWait) →
       Tr s (.ctl .ready (.shutdown f :: rest)) { s with lastRes := r } (.ctl pc rest)
   | ctlRelease {s : Sh} {tag : Nat} {rest : List EnvOp} :
       Tr s (.ctl .ready (.release tag :: rest)) { s with released := tag :: s.released, lastRes := .done }
@@ -316,8 +317,11 @@ theorem step_tr {s s' : Sh} {t t' : Th} (h : (s', t') ∈ step s t) : Tr s t s' 
           | none =>
             simp only [hs] at h
             split at h <;> simp only [List.mem_singleton, Prod.mk.injEq] at h <;> obtain ⟨rfl, rfl⟩ := h
-            · exact .ctlSdAgain hs
-            · exact .ctlSdAgain hs
+            · exact .ctlSdAgain hs (Or.inl rfl)
+            · refine .ctlSdAgain hs ?_
+              split
+              · exact Or.inl rfl
+              · exact Or.inr rfl
         | release tag =>
           simp only [List.mem_singleton, Prod.mk.injEq] at h
           obtain ⟨rfl, rfl⟩ := h
